@@ -136,11 +136,17 @@ impl C01 {
         // implementation, path 1: eval_string (strict)
         self.ucg.reset();
         let ucg = &self.ucg;
+        crate::props::c04::set_limit(4_000_000);
         let got = catch(std::panic::AssertUnwindSafe(|| ucg.eval(&src, true)));
+        crate::props::c04::set_limit(u64::MAX);
         let got: Result<std::rc::Rc<Val>, String> = match got {
             Ok(r) => r,
             Err(pi) => {
                 self.ucg.poison();
+                if pi.msg.starts_with(crate::props::c04::WORK_LIMIT_MSG) {
+                    o.verdict = Verdict::Discard("evaluation exceeds the work limit".into());
+                    return o;
+                }
                 o.class("implementation-panics");
                 Err(format!("panic: {} at {}", pi.msg, pi.loc))
             }
